@@ -60,6 +60,12 @@ CHECKS = {
   text="Every descriptor set of the matrix 31 field types (all 15 proto scalar kinds, enums with and without UNSPECIFIED, messages, oneof wrapper, self reference, well-known and j5 types) x 4 labels x 90 annotations ((j5.ext.v1.field) of every type, (buf.validate.field) of every type at boundary values, (j5.list.v1.field) of every type, PSM key options; consistent with the field or not) and ~60 structural sets (message options, enum shapes, real/synthetic/exposed oneofs, recursion through field/array/map/oneof/flatten, flatten chains, JSON-name collisions, nested-name collisions) is reflected through SchemaSetFromFiles and SchemaCache.Schema: no panic / fatal / hang, (schema xor error), every property path resolves to a field of the matching kind, client property names unique, and the codec encodes and decodes the empty and a populated message of every reflected type. Thorough adds all pairs of annotations on one field.",
   note="options are typed extension messages (protodesc, no protoc); 10 open known findings (Duration / Struct / array-of-Any / map-of-Any codec support, nested-name collision) are listed in known_findings.json",
   design="3/C18"),
+ "C10": dict(
+  engine="E2",
+  technique="stateless depth-first exploration of thread interleavings of the real codec under a cooperative scheduler (preemption-bounded, iterated), with the real Go race detector as per-execution access monitor; not sampling",
+  text="14 driver scenarios (2-3 goroutines, 1-2 encode / decode / query-decode / NewHash calls each on one shared codec, fresh or warm, incl. the package-level default; types forced to share sub-schemas, enums, recursion, a failing reflection, prefixed enum spellings, same-type pairs) are executed under every interleaving at scheduling points (thread start, call boundaries and every sync / atomic operation of lib/j5schema, lib/j5reflect, internal/codec, lib/j5codec, lib/id62, reached by rewriting their sync imports to a shim at check time) with <=3 preemptions (quick; <=2 for 3-thread / 4-call scenarios) or without bound (thorough). Oracles per execution: no data race (real -race runtime, hand-off invisible to it), no panic, no deadlock, every call's result equals its result on a fresh codec alone. Default schedule replayed twice for determinism; a racing schedule is replayed twice before it is reported.",
+  note="trusted: Go race detector; sync operations outside the shimmed packages are not scheduling points; a free-running -race pass of the same bodies is reported as cross-check",
+  design="3/C10"),
 }
 
 PENDING = {
